@@ -1,7 +1,7 @@
 //@ create src/cli/tests/verif_argv.rs
 //@ native verif_oracle_cli_flows "bounded stand-in / witness finder (C01, C02, C05, C07, C08, C13, C16): the built kestrel binary on the shipped two-key keyring: encrypt for every (from, to) in {alice, bob}^2 (incl. to self) with an empty, a 10-byte and a 70000-byte input, file length = 132 + 32 per chunk + plaintext, the same number of bytes and the magic when the ciphertext goes to standard output, decrypt as each key succeeds exactly for `to`, returns the input and names `from`, a failed decrypt leaves no output file and an existing one intact; with the last chunk of a two-chunk file corrupted the output holds exactly the first chunk and the exit status is 1; the same path as input and output is refused by all four file commands and the file stays intact; a key re-locked under the empty password encrypts and decrypts; password mode round trip (also with an unrelated KESTREL_NEW_PASSWORD exported), rejection of a different password and of the password with a trailing space, tab or newline; extract-pub accepts the key's password and rejects it with a trailing newline / CR LF / space, a leading space, or one letter changed; change-pass (also to a password ending in a newline, and to the empty password) keeps the public key, makes the old password fail, draws a new salt also when the new password equals the old one; two identical encrypt invocations differ in their ephemeral key"
 //@ native verif_oracle_argv_sweep "bounded stand-in / witness finder (C09, C13): the built kestrel binary (stdin closed, no controlling terminal, KESTREL_* unset, scratch working directory) on every argument vector of length <= 2 over 38 tokens (commands, options, aliases, paths of the shipped test keyring / data files, a missing path, an absent output path, empty and non-ASCII strings), every length-3 vector starting with a command word, and 7 complete command lines with each element in turn dropped, duplicated, or replaced by a missing path or one of 10 degenerate strings ('', '.', '..', '/', ...): exit status is 0 or 1, never a signal or panic text; status 1 carries an 'Error:' line; a failed run never leaves a file at the absent output path"
-//@ native verif_oracle_keygen_append "bounded stand-in / witness finder (C14): the built kestrel binary runs `key generate -o F --env-pass` (name on standard input) 1..3 times on one file F, starting from an absent file, from an empty file, from a file holding a shipped two-key keyring and from a file holding unrelated text: after every run the earlier contents of F are a byte prefix of the new contents, a run on an absent file creates exactly one section without a leading blank line, and after every run on a keyring file the newest key and the first key generated encrypt to each other and to themselves (`encrypt -k F`) and decrypts under its own password with the sender named"
+//@ native verif_oracle_keygen_append "bounded stand-in / witness finder (C14): the built kestrel binary runs `key generate -o F --env-pass` (name on standard input) 1..3 times on one file F, starting from an absent file, from an empty file, from a file holding a shipped two-key keyring, from that keyring without its final line break, through a symbolic link to such a file, and from a file holding unrelated text: after every run the earlier contents of F are a byte prefix of the new contents, a run on an absent file creates exactly one section without a leading blank line, and after every run on a keyring file the newest key and the first key generated encrypt to each other and to themselves (`encrypt -k F`) and decrypts under its own password with the sender named"
 // Native oracle on the REAL binary.  Never counted as proved; a disagreement is a concrete failing argument vector.
 use std::path::PathBuf;
 use std::process::{Command, Stdio};
@@ -322,11 +322,25 @@ fn verif_oracle_keygen_append() {
     let starts: Vec<(&str, Option<Vec<u8>>, bool)> = vec![
         ("absent", None, true), ("empty", Some(Vec::new()), true), ("shipped", Some(shipped.clone()), !shipped.is_empty()),
         ("text", Some(b"# my keys\n".to_vec()), false),
+        // a keyring whose last line has no line break (an editor stripped it): the new section must still start on its own line
+        ("nonl", Some({ let mut b = shipped.clone(); while b.last() == Some(&b'\n') { b.pop(); } b }), !shipped.is_empty()),
+        // the -o path is a symbolic link to the keyring (dotfiles layout): the link's target is the existing file
+        ("symlink", Some(shipped.clone()), !shipped.is_empty()),
     ];
     for (label, init, parses) in starts.iter() {
         let f = p(&format!("kr-{}.txt", label));
         let _ = std::fs::remove_file(&f);
-        if let Some(b) = init { std::fs::write(&f, b).unwrap(); }
+        if let Some(b) = init {
+            if *label == "symlink" {
+                let real = p("kr-symlink-target.txt");
+                std::fs::write(&real, b).unwrap();
+                #[cfg(unix)]
+                { let _ = std::os::unix::fs::symlink(&real, &f); }
+                if !std::path::Path::new(&f).exists() { std::fs::write(&f, b).unwrap(); }
+            } else {
+                std::fs::write(&f, b).unwrap();
+            }
+        }
         let mut names: Vec<(String, String)> = Vec::new();
         for k in 0..3usize {
             n += 1;
